@@ -207,10 +207,14 @@ impl Response {
             let content_length: usize = content_length
                 .parse()
                 .map_err(|_| ResponseError::Response)?;
-            let mut content_buf: Vec<u8> = vec![0u8; content_length];
-            reader
-                .read_exact(&mut content_buf)
+            // Read the body incrementally, so that memory use is bounded by the bytes actually
+            //   received and not by the length the server claims.
+            let mut content_buf: Vec<u8> = Vec::new();
+            (&mut reader)
+                .take(content_length as u64)
+                .read_to_end(&mut content_buf)
                 .map_err(|_| ResponseError::Stream)?;
+            safe_assert(content_buf.len() == content_length).map_err(|_| ResponseError::Stream)?;
 
             Ok(Self {
                 version,
@@ -274,8 +278,16 @@ where
         stream.read_exact(&mut [0u8, 0]).ok()?;
         None
     } else {
-        let mut content_buf: Vec<u8> = vec![0u8; length];
-        stream.read_exact(&mut content_buf).ok()?;
+        // As above, do not trust the claimed chunk size for the allocation.
+        let mut content_buf: Vec<u8> = Vec::new();
+        stream
+            .by_ref()
+            .take(length as u64)
+            .read_to_end(&mut content_buf)
+            .ok()?;
+        if content_buf.len() != length {
+            return None;
+        }
         stream.read_exact(&mut [0u8, 0]).ok()?;
         Some(content_buf)
     }
